@@ -48,14 +48,43 @@ Fixpoint strict_prefix (p l : list Z) : bool :=
   | _, _ => false
   end.
 
-(* matchBind: the last exact match in sorted order, and whether some sequence has
-   the keys as a proper prefix *)
-Definition match_bind (t : table) (keys : list Z) : bind_t * bool :=
+(* the table scan of matchBind: the last exact match in sorted order, and whether some
+   sequence has the keys as a proper prefix *)
+Definition match_table (t : table) (keys : list Z) : bind_t * bool :=
   fold_left (fun acc e =>
                let sb := seq_bytes (fst e) in
                (if eqlZ keys sb then snd e else fst acc,
                 snd acc || strict_prefix keys sb))
             (sort_table t) (no_bind, false).
+
+Definition s_self_insert : list Z := [115; 101; 108; 102; 45; 105; 110; 115; 101; 114; 116].   (* self-insert *)
+Definition self_insert_bind : bind_t := (s_self_insert, false).
+
+(* binds["a"].Action == "self-insert": a keymap where characters insert themselves *)
+Definition inserts_text (t : table) : bool :=
+  existsb (fun e => eqlZ (fst e) [97] && eqlZ (fst (snd e)) s_self_insert) t.
+
+(* the keys are the complete, valid UTF-8 encoding of one character (not U+FFFD) *)
+Definition utf8_char (keys : list Z) : bool :=
+  match keys with
+  | [] => false
+  | k0 :: r => let '(c, w) := decode1 k0 r in full_rune keys && negb (c =? rune_error) && (w =? length keys)%nat
+  end.
+
+(* matchBind: the table scan, then - in a keymap where characters insert themselves -
+   a character encoded on several bytes matches self-insert unless it is bound, and an
+   incomplete encoding is a prefix *)
+Definition match_bind (t : table) (keys : list Z) : bind_t * bool :=
+  let '(m, ext) := match_table t keys in
+  match keys with
+  | k0 :: _ =>
+    if (128 <=? k0) && inserts_text t then
+      if negb (full_rune keys) then (m, true)
+      else if negb (is_bound m) && utf8_char keys then (self_insert_bind, ext)
+      else (m, ext)
+    else (m, ext)
+  | [] => (m, ext)
+  end.
 
 (* ---- core.Keys *)
 
@@ -168,6 +197,23 @@ Inductive input :=
 | Chunk (bs : list Z)        (* one blocking read returned these bytes *)
 | Eof.                       (* the read ended *)
 
+(* Keys.convertMeta on the bytes of one read: each character goes through ConvertMeta,
+   bytes that are not part of a valid encoding pass through.  (The bytes of a character
+   cut by the end of the read are held back for the next read: a Chunk of the model is
+   what is converted in one go, the harness moves an incomplete tail to the next one.) *)
+Fixpoint conv_go (fuel : nat) (bs : list Z) : list Z :=
+  match fuel with
+  | O => []
+  | S f =>
+    match bs with
+    | [] => []
+    | b0 :: t =>
+      let '(r, w) := decode1 b0 t in
+      (if (r =? rune_error) && (w =? 1)%nat then [b0] else utf8_encode (convert_meta [r])) ++ conv_go f (skipn w bs)
+    end
+  end.
+Definition conv_read (bs : list Z) : list Z := conv_go (length bs) bs.
+
 Section Loop.
   (* the state commands act on, and the commands: `exec action caller_keys a` is None
      when Keymap.Commands() has no such command (nothing runs), else the new state and
@@ -200,7 +246,7 @@ Section Loop.
         | [] => None
         | Eof :: r => Some (k, r, true)
         | Chunk bs :: r =>
-          let bs := if convert_meta_on then utf8_encode (convert_meta (utf8_decode bs)) else bs in
+          let bs := if convert_meta_on then conv_read bs else bs in
           Some ({| k_buf := k_buf k ++ bs; k_macro := k_macro k; k_matched := k_matched k; k_must_wait := k_must_wait k |},
                 r, false)
         end
